@@ -33,12 +33,59 @@ def run(ctx):
     ctx.step(atomic_ops_rule, ctx)
     ctx.step(link_rule, ctx)
     ctx.step(init_rule, ctx)
+    ctx.step(erase_result, ctx)
     # a traversal is only protected once its handle is in the log: every way of reaching the list through a handle registers
     ctx.step(c05.register, ctx, "C12.register", True, False)
     from . import c13
     ctx.step(c13.uaf, ctx, "C12.uaf", [f for f in ctx.fb.functions(rec=RCU)], floor=10)
     ctx.step(common.atomic_floors, ctx, "C12.orders", [RCU, NODE], floor=20, files=["rcu_list.hpp"])
     ctx.step(common.witnesses, ctx, "C12.witness", ["C12"])
+
+
+def erase_result(ctx, rid="C12.erase-result"):
+    """erase(it) hands back the position AFTER the erased element on every path - also when the element had already been
+    taken out through another handle: its `next` link stays intact, and the canonical pass `it = erase(it)` relies on the
+    result to go on.  An iterator that is not derived from the node's `next` link (a default iterator, the node itself)
+    ends or derails that traversal although the rest of the list was there the whole time."""
+    ctx.rule(rid, "every return of erase() is the iterator of the erased node's next link", floor=1)
+    n = 0
+    for f in ctx.fb.functions(rec=RCU, name="erase"):
+        if not f.params:
+            continue
+        node = {"p:%s.m_current" % f.params[0]["name"]} | {"p:%s->m_current" % f.params[0]["name"]}
+        node |= set().union(*[node_names(f, x) for x in list(node)])
+        loads = {op["st"]["id"]: op for op in atomic_ops(f) if op["op"] == "load"}
+
+        def is_next_of_node(e, depth=0):
+            e = unwrap(f, e)
+            while e is not None and e["k"] in CTORS and len(e.get("args", [])) == 1:
+                e = unwrap(f, f.s(e["args"][0]))
+            if e is None or depth > 4:
+                return False
+            if e["id"] in loads:
+                o = loads[e["id"]].get("obj") or ""
+                m = re.match(r"^(.*)->next$", o)
+                return bool(m) and (m.group(1) in node)
+            if e["k"] == "DeclRefExpr" and e["d"].get("k") == "local":
+                inits = [f.s(d.get("init")) for s_ in f.stmts.values() if s_["k"] == "DeclStmt" for d in s_["decls"]
+                         if d["id"] == e["d"].get("id") and d.get("init")]
+                asg = [s_ for s_ in f.stmts.values() if s_["k"] == "BinaryOperator" and s_.get("op") == "=" and
+                       path(f, f.children(s_)[0]) == "l:" + e["d"]["name"]]
+                return len(inits) == 1 and not asg and is_next_of_node(inits[0], depth + 1)
+            return False
+        for r in [s for s in f.stmts.values() if s["k"] == "ReturnStmt"]:
+            n += 1
+            ch = f.children(r)
+            e = unwrap(f, ch[0]) if ch else None
+            while e is not None and e["k"] in CTORS and len(e.get("args", [])) == 1 and \
+                    not (e.get("t", "").endswith("iterator") and is_next_of_node(f.s(e["args"][0]))):
+                e = unwrap(f, f.s(e["args"][0]))
+            ok = e is not None and e["k"] in CTORS and len(e.get("args", [])) == 1 and is_next_of_node(f.s(e["args"][0]))
+            ctx.ob(rid, ok, f.loc(r), "erase returns the successor of the erased element",
+                   "" if ok else "this return is not built from the node's next link: a pass that continues with the result of erase() "
+                   "stops (or goes astray) here although the elements behind are still in the list", fn=f.label, inst=f.qname)
+    if n == 0:
+        ctx.broken("rcu_list::erase has no return statement (anchor vanished)")
 
 
 def init_rule(ctx, rid="C12.init"):
